@@ -24,7 +24,7 @@ import c01_gen  # noqa: E402  query generator (shared with C17)
 
 # plan rules whose statement is generated but whose proof is not finished yet: named in the
 # evidence, not counted as obligations
-UNPROVED_PLAN_RULES = {"pushdown-filter-order", "pushdown-filter-hashagg", "inner-join-right-rotate", "inner-join-right-rotate-1"}
+UNPROVED_PLAN_RULES = set()
 # rules the translator is known not to be able to state (apply / subquery / vector index)
 KNOWN_UNTRANSLATABLE = {"avg", "pushdown-filter-apply-left", "in-to-exists", "exists-to-semi-apply", "not-exists-to-anti-apply",
                         "left-outer-apply-to-inner-apply", "apply-to-join", "apply-filter-to-join", "pushdown-apply-filter",
